@@ -165,8 +165,13 @@ def roundtrip_eval(R, lib, ob):
         # ---- R2: conversions keep the instant
         f2o = fn(NS + 'OffsetDateTime::convertToTimeOffset', 1)
         f2z = fn(NS + 'ZonedDateTime::convertToTimeZone', 1)
-        for e in instants:
-            for off, off2 in ((60, -300), (0, 345), (-720, 840), (330, 330)):
+        # every hour of one day as well: a conversion between offsets more than 24 h apart (-12:00 <-> +14:00) moves the local date by
+        # two days for the local times of the first or last hours only
+        hours_of_a_day = [173836800 + 3600 * h_ + 1799 for h_ in range(24)]          # 2005-07-05 00:29:59 UTC onwards
+        for e in list(instants) + hours_of_a_day:
+            for off, off2 in ((60, -300), (0, 345), (-720, 840), (840, -720), (-660, 825), (330, 330)):
+                if e in hours_of_a_day and abs(off - off2) <= 1440 and e not in instants:
+                    continue
                 c = 'OffsetDateTime::convertToTimeOffset'
                 count('R2', c, f2o.loc)
                 odt = call(fo.name, [e, offset_obj(off)])
